@@ -57,7 +57,7 @@ Theorem pc_uncorrected_sum d na nk no (Bpc : list A3r) (basis : list MatR) idx (
   idx_ok na idx -> length omega = no ->
   (i < length idx)%nat -> (j < length idx)%nat -> (is_cross sp = false -> i = j) ->
   sumn' (length Bpc) (fun g => sumn' (length Bpc) (fun h =>
-     nth (lead_pos sp (length idx) i j) (nth h (nth g (infidelity_pc RO d false na nk no Bpc basis idx sp omega) []) []) 0)) =
+     nth (lead_pos sp (length idx) i j) (nth h (nth g (infidelity_pc_value RO d false na nk no Bpc basis idx sp omega) []) []) 0)) =
   nth (lead_pos sp (length idx) i j)
       (infid_of_ff RO d (ff_fidelity2 RO na nk no (cm_pc_sum RO na nk no Bpc) (cm_pc_sum RO na nk no Bpc)) idx sp no omega) 0.
 Proof.
@@ -65,7 +65,7 @@ Proof.
   rewrite (infid_fid2_entry d na nk no) by auto.
   rewrite (sumn_ext (length Bpc) _ (fun g => sumn' (length Bpc) (fun h =>
      sumn' nk (fun k => Gamma (nth g Bpc []) (nth h Bpc []) idx sp no omega i j k k) / INR d))).
-  2:{ intros g Hg. apply sumn_ext. intros h Hh. unfold infidelity_pc.
+  2:{ intros g Hg. apply sumn_ext. intros h Hh. unfold infidelity_pc_value.
       rewrite (nth_map_lt _ Bpc g [] []) by auto. rewrite (nth_map_lt _ Bpc h [] []) by auto.
       apply (infid_fid2_entry d na nk no); auto. }
   rewrite (sumn_ext nk _ (fun k => sumn' (length Bpc) (fun g => sumn' (length Bpc) (fun h =>
@@ -106,7 +106,7 @@ Proof. unfold GT. apply sumn_ext. intros k Hk. apply sumn_ext. intros l Hl.
 Theorem pc_infid_sum i j :
   (i < length idx)%nat -> (j < length idx)%nat -> (is_cross sp = false -> i = j) ->
   sumn' (length Bpc) (fun g => sumn' (length Bpc) (fun h =>
-     nth (lead_pos sp (length idx) i j) (nth h (nth g (infidelity_pc RO d true na nk no Bpc basis idx sp omega) []) []) 0)) =
+     nth (lead_pos sp (length idx) i j) (nth h (nth g (infidelity_pc_value RO d true na nk no Bpc basis idx sp omega) []) []) 0)) =
   nth (lead_pos sp (length idx) i j)
       (infidelity_total RO d na nk no (cm_pc_sum RO na nk no Bpc) basis idx sp omega) 0.
 Proof.
@@ -115,7 +115,7 @@ Proof.
   rewrite (sumn_ext (length Bpc) _ (fun g => sumn' (length Bpc) (fun h =>
      (INR d * trG basis (rmbuild nk nk (fun k l => Gamma (nth g Bpc []) (nth h Bpc []) idx sp no omega i j k l))
       - GT d basis (rmbuild nk nk (fun k l => Gamma (nth g Bpc []) (nth h Bpc []) idx sp no omega i j k l))) / (INR d * INR d)))).
-  2:{ intros g Hg. apply sumn_ext. intros h Hh. unfold infidelity_pc.
+  2:{ intros g Hg. apply sumn_ext. intros h Hh. unfold infidelity_pc_value.
       rewrite (nth_map_lt _ Bpc g [] []) by auto. rewrite (nth_map_lt _ Bpc h [] []) by auto.
       apply (corrected_entry d basis Hd Hherm na nk no idx sp omega Hnk Hidx Hom); auto. }
   rewrite !trG_rmbuild, !GT_rmbuild.
@@ -152,7 +152,7 @@ Qed.
 Theorem pc_uncached_excess i j :
   (i < length idx)%nat -> (j < length idx)%nat -> (is_cross sp = false -> i = j) ->
   sumn' (length Bpc) (fun g => sumn' (length Bpc) (fun h =>
-     nth (lead_pos sp (length idx) i j) (nth h (nth g (infidelity_pc RO d false na nk no Bpc basis idx sp omega) []) []) 0)) =
+     nth (lead_pos sp (length idx) i j) (nth h (nth g (infidelity_pc_value RO d false na nk no Bpc basis idx sp omega) []) []) 0)) =
   nth (lead_pos sp (length idx) i j) (infidelity_total RO d na nk no (cm_pc_sum RO na nk no Bpc) basis idx sp omega) 0
   + GT d basis (rmbuild nk nk (fun k l => Gamma (cm_pc_sum RO na nk no Bpc) (cm_pc_sum RO na nk no Bpc) idx sp no omega i j k l))
     / (INR d * INR d).
@@ -164,6 +164,55 @@ Proof.
   rewrite trG_rmbuild. rewrite Hnk.
   assert (Hd0 : INR d <> 0) by (apply not_0_INR; lia). field. auto.
 Qed.
+(* ---------- the branch of the package (after fix a9e668a): value or CalculationError ---------- *)
+(* extensionality of infid_of_ff in the selected entries of the filter function *)
+Lemma infid_of_ff_ext (F F' : A3r) :
+  (forall i j o, (i < length idx)%nat -> (j < length idx)%nat -> (o < no)%nat ->
+     a3get RO F (sel idx i) (sel idx j) o = a3get RO F' (sel idx i) (sel idx j) o) ->
+  infid_of_ff RO d F idx sp no omega = infid_of_ff RO d F' idx sp no omega.
+Proof.
+  intros H. unfold infid_of_ff. apply map_ext_in. intros p Hp. apply leads_bound in Hp. destruct Hp as [H1 H2].
+  f_equal. f_equal. apply build_ext. intros o Ho. unfold integrand_fid. rewrite H by auto. reflexivity.
+Qed.
+
+(* "the selected noise operators are traceless" at the level of the control matrices: the identity component
+   sum_l tr(C_l) B_h[b][l][o] of every selected row vanishes *)
+Definition identity_component_vanishes : Prop :=
+  forall Bh, In Bh Bpc -> forall j o, (j < length idx)%nat -> (o < no)%nat ->
+    csumn' nk (fun l => cmul' (nth l (basis_traces RO d basis nk) 0c) (a3get RO Bh (sel idx j) l o)) = 0c.
+
+Lemma uncorrected_eq_corrected : identity_component_vanishes ->
+  infidelity_pc_value RO d false na nk no Bpc basis idx sp omega = infidelity_pc_value RO d true na nk no Bpc basis idx sp omega.
+Proof.
+  intros Hv. unfold infidelity_pc_value. apply map_ext_in. intros Bg Hg. apply map_ext_in. intros Bh Hh.
+  apply infid_of_ff_ext. intros i j o Hi Hj Ho.
+  unfold ff_fidelity2, infid_ff_corrected. rewrite !a3get_a3build by (auto; apply Hidx; auto).
+  rewrite (Hv Bh Hh j o Hj Ho).
+  assert (Hd0 : INR d <> 0) by (apply not_0_INR; lia).
+  rewrite dnat_INR. generalize (csumn' nk (fun k => cmul' (cconj' (a3get RO Bg (sel idx i) k o)) (a3get RO Bh (sel idx j) k o))).
+  generalize (csumn' nk (fun k => cmul' (nth k (basis_traces RO d basis nk) 0c) (cconj' (a3get RO Bg (sel idx i) k o)))).
+  intros [x y] [u v]. apply c_eq; csimp; field; auto.
+Qed.
+
+(* pc_infid_sum for the package's branch: WHENEVER a value is returned (no CalculationError) the pulse-correlation
+   infidelities sum to the total infidelity *)
+Theorem pc_infid_sum_returned has_cm sel_tl Rv i j :
+  infidelity_pc RO d has_cm sel_tl na nk no Bpc basis idx sp omega = Some Rv ->
+  (sel_tl = true -> identity_component_vanishes) ->
+  (i < length idx)%nat -> (j < length idx)%nat -> (is_cross sp = false -> i = j) ->
+  sumn' (length Bpc) (fun g => sumn' (length Bpc) (fun h => nth (lead_pos sp (length idx) i j) (nth h (nth g Rv []) []) 0)) =
+  nth (lead_pos sp (length idx) i j) (infidelity_total RO d na nk no (cm_pc_sum RO na nk no Bpc) basis idx sp omega) 0.
+Proof.
+  intros HR Htl Hi Hj Hc. unfold infidelity_pc in HR.
+  destruct has_cm.
+  - injection HR as <-. apply pc_infid_sum; auto.
+  - destruct sel_tl; [|discriminate]. injection HR as <-.
+    rewrite (uncorrected_eq_corrected (Htl eq_refl)). apply pc_infid_sum; auto.
+Qed.
+(* the error outcome: exactly when the control matrix is gone and a selected operator has a trace *)
+Theorem pc_error_iff has_cm sel_tl :
+  infidelity_pc RO d has_cm sel_tl na nk no Bpc basis idx sp omega = None <-> (has_cm = false /\ sel_tl = false).
+Proof. unfold infidelity_pc. destruct has_cm, sel_tl; split; intros H; try discriminate; auto; destruct H; discriminate. Qed.
 End PcSum.
 
 (* ---------- positive semidefinite spectra ---------- *)
